@@ -188,7 +188,10 @@ func TestC05_FailingTarget(t *testing.T) {
 	defer debug.SetGCPercent(debug.SetGCPercent(-1))
 	rapid.Check(t, func(t *rapid.T) {
 		log.Destroy()
-		base := fdsOn("/dev/full")
+		// /dev/full refuses every write (ENOSPC); /dev/null takes every write but cannot be synced
+		// (EINVAL): closing a file does not depend on whether flushing it worked
+		target := rapid.SampledFrom([]string{"full", "null"}).Draw(t, "target")
+		base := fdsOn("/dev/" + target)
 		viaRefresh := rapid.Bool().Draw(t, "viaRefresh")
 		writes := rapid.IntRange(1, 60).Draw(t, "writes")
 		raw := rapid.Bool().Draw(t, "rawWrites")
@@ -198,10 +201,10 @@ func TestC05_FailingTarget(t *testing.T) {
 			kind := rapid.SampledFrom([]string{"appender", "filelogger"}).Draw(t, "kind")
 			m := map[string]string{"appender.unused.type": "Discard", "logger.c05h.tags": "_c05_main"}
 			if kind == "appender" {
-				m["appender.f.type"], m["appender.f.fileDir"], m["appender.f.fileName"] = "File", "/dev", "full"
+				m["appender.f.type"], m["appender.f.fileDir"], m["appender.f.fileName"] = "File", "/dev", target
 				m["logger.c05h.type"], m["logger.c05h.appenderRef.ref"] = "Logger", "f"
 			} else {
-				m["logger.c05h.type"], m["logger.c05h.fileDir"], m["logger.c05h.fileName"] = "File", "/dev", "full"
+				m["logger.c05h.type"], m["logger.c05h.fileDir"], m["logger.c05h.fileName"] = "File", "/dev", target
 			}
 			if err := log.Refresh(m); err != nil {
 				t.Fatalf("VERIF-INCONCLUSIVE C05: %v", err)
@@ -215,7 +218,7 @@ func TestC05_FailingTarget(t *testing.T) {
 			}
 			stop = log.Destroy
 		} else {
-			a := &log.FileAppender{AppenderBase: log.AppenderBase{Name: "f"}, Layout: &log.TextLayout{BaseLayout: log.BaseLayout{FileLineLength: 48}}, FileDir: "/dev", FileName: "full"}
+			a := &log.FileAppender{AppenderBase: log.AppenderBase{Name: "f"}, Layout: &log.TextLayout{BaseLayout: log.BaseLayout{FileLineLength: 48}}, FileDir: "/dev", FileName: target}
 			if err := a.Start(); err != nil {
 				t.Fatalf("VERIF-INCONCLUSIVE C05: %v", err)
 			}
@@ -224,19 +227,19 @@ func TestC05_FailingTarget(t *testing.T) {
 		}
 		vk.Eval()
 		vk.Class("failing-target")
-		vk.NonTrivial(fmt.Sprintf("failing-target/%v/%d/%v", viaRefresh, writes, raw))
+		vk.NonTrivial(fmt.Sprintf("failing-target/%s/%v/%d/%v", target, viaRefresh, writes, raw))
 		for i := 0; i < writes; i++ {
 			if p := vk.Catch(func() { write(i) }); p != nil {
 				stop()
-				t.Fatalf("VERIF-VIOLATION C05: a write to a full device panicked: %v", p)
+				t.Fatalf("VERIF-VIOLATION C05: a write to the device panicked: %v", p)
 			}
-			if n := fdsOn("/dev/full") - base; n > 1 {
+			if n := fdsOn("/dev/"+target) - base; n > 1 {
 				stop()
 				t.Fatalf("VERIF-VIOLATION C05: after %d failed writes the running file appender holds %d descriptors on its file (one is what it needs)", i+1, n)
 			}
 		}
 		stop()
-		if n := fdsOn("/dev/full") - base; n != 0 {
+		if n := fdsOn("/dev/"+target) - base; n != 0 {
 			t.Fatalf("VERIF-VIOLATION C05: after Stop/Destroy the process still holds %d descriptor(s) on the appender's file", n)
 		}
 	})
